@@ -27,7 +27,7 @@ STRICT_FIRST_BLOCK = os.environ.get("VERIF_C40_STRICT", "0") == "1"      # defau
 
 
 def mc_cfg(headers, bodies, pre, maxblocks, pin_none=False, pin_order=False, pin_snapshot=False, keep_repeats=None, strict=None,
-           invariants=INVS):
+           pin_match_host=False, invariants=INVS):
     strict = STRICT_FIRST_BLOCK if strict is None else strict
     keep_repeats = (not strict) if keep_repeats is None else keep_repeats
     lines = ["SPECIFICATION Spec", "CONSTANTS",
@@ -35,14 +35,15 @@ def mc_cfg(headers, bodies, pre, maxblocks, pin_none=False, pin_order=False, pin
              "  MaxBlocks = %d" % maxblocks, "  Env <- MC_Env",
              "  PinNone = %s" % ("TRUE" if pin_none else "FALSE"), "  PinOrder = %s" % ("TRUE" if pin_order else "FALSE"),
              "  PinSnapshot = %s" % ("TRUE" if pin_snapshot else "FALSE"), "  KeepRepeats = %s" % ("TRUE" if keep_repeats else "FALSE"),
-             "  StrictFirstBlock = %s" % ("TRUE" if strict else "FALSE")]
+             "  StrictFirstBlock = %s" % ("TRUE" if strict else "FALSE"),
+             "  PinMatchHost = %s" % ("TRUE" if pin_match_host else "FALSE")]
     lines += ["INVARIANT %s" % i for i in invariants]
     lines.append("CHECK_DEADLOCK FALSE")
     return "\n".join(lines) + "\n"
 
 
 TRACE_CFG = ("SPECIFICATION TSpec\nCONSTANTS\n  Headers = {}\n  Bodies = {}\n  Preambles = {}\n  HostNames = {}\n  MaxBlocks = 0\n"
-             "  Env = {}\n  PinNone = FALSE\n  PinOrder = FALSE\n  PinSnapshot = FALSE\n  KeepRepeats = TRUE\n"
+             "  Env = {}\n  PinNone = FALSE\n  PinOrder = FALSE\n  PinSnapshot = FALSE\n  KeepRepeats = TRUE\n  PinMatchHost = FALSE\n"
              "  StrictFirstBlock = %s\nINVARIANT Report\nCHECK_DEADLOCK FALSE\n" % ("TRUE" if STRICT_FIRST_BLOCK else "FALSE"))
 
 # ---------------------------------------------------------------- random configs (structure first, text second)
@@ -214,13 +215,20 @@ def run(c):
     # ---- M: pinned parse / pinned expansion order must each yield a counterexample to FirstObtained
     pinned = [(dict(pin_snapshot=True, keep_repeats=True, strict=False), "MC_PreSome", 1, "seeded error: later IdentityFile values filtered against a snapshot of the list"),
               (dict(pin_none=True), "MC_PreNone", 1, "pinned parse: ProxyCommand none stored unconditionally"),
-              (dict(pin_order=True), "MC_PreSome", 1, "pinned expansion: %h taken from hostname in dict order")]
+              (dict(pin_order=True), "MC_PreSome", 1, "pinned expansion: %h taken from hostname in dict order"),
+              (dict(pin_match_host=True, universe=("MC_HeadersMH", "MC_BodiesMH")), "MC_PreNone", 3,
+               "seeded error: Match host consults the obtained HostName in the final pass only")]
+    if not q:        # ... and the family it needs (HostName setter, Match host through it, same option later) holds for the code's rule
+        c.mc_holds("SshConfig_MC", mc_cfg("MC_HeadersMH", "MC_BodiesMH", "MC_PreNone", 3), name="Match host through the obtained HostName", workers=16)
     if not q and not STRICT_FIRST_BLOCK:     # the code's first-block copy against the OpenSSH reading, and the repaired parse
         pinned.append((dict(keep_repeats=True, strict=True), "MC_PreNone", 1, "strict reading: a repeat inside the first contributing block survives"))
         c.mc_holds("SshConfig_MC", mc_cfg("MC_HeadersCore", "MC_BodiesCore", "MC_PreNone", 2, keep_repeats=False, strict=True),
                    name="strict reading with parse-time de-duplication", workers=16)
-    for kw, pre, mb, name in ([pinned[c.seed % 3]] if q else pinned):      # quick: one of the three per seed
-        c.mc("SshConfig_MC", mc_cfg("MC_HeadersCore", "MC_BodiesCore", pre, mb, **kw), expect="FirstObtained", name=name, workers=4)
+    n_sens = 4 if len(pinned) >= 4 else len(pinned)
+    for kw, pre, mb, name in ([pinned[c.seed % n_sens]] if q else pinned):      # quick: one of the four per seed
+        kw = dict(kw)
+        hs, bs = kw.pop("universe", ("MC_HeadersCore", "MC_BodiesCore"))
+        c.mc("SshConfig_MC", mc_cfg(hs, bs, pre, mb, **kw), expect="FirstObtained", name=name, workers=4)
     # repaired walk against the declarative statement; one CASE per (config, host)
     if q:
         runs = [("MC_HeadersCore", "MC_BodiesCore", "MC_PreNone", 2)]
